@@ -23,9 +23,9 @@ impl SearchEngine {
         let thorough = tier == "thorough";
         let mut cfg = GenCfg::quick();
         cfg.force_slots = true;
-        cfg.max_departures = if thorough { 7 } else { 5 };
-        cfg.max_total_need = if thorough { 16 } else { 11 };
-        cfg.max_need = 3;
+        cfg.max_departures = if thorough { 14 } else { 5 };
+        cfg.max_total_need = if thorough { 40 } else { 11 };
+        cfg.max_need = if thorough { 4 } else { 3 };
         let mut hist = HistoryEngine::new("C13", tier);
         hist.cfg = cfg;
         SearchEngine { cfg, hist }
